@@ -6,6 +6,13 @@ package astits
 // the skipped packets returns; the skipper is consulted once per packet, in order, with header and AF parsed
 func HarnessC19Skip(api int) {
 	s := c08Stream()
+	// two adaptation-field-only packets (PCR only, no payload): one on the ES PID, one on a foreign PID
+	for k, pid := range []uint16{0x100, 0x1ff0} {
+		m := &mPacket{pid: pid, hasAF: true, cc: uint8(5 + k)}
+		m.af = mAF{hasPCR: true, pcrBase: vTS33(), pcrExt: vBits16(9), stuffing: 183 - 7}
+		pos := 3 + 2*k
+		s.pkts = append(append(append([][]byte{}, s.pkts[:pos]...), refEncodePacket(m)), s.pkts[pos:]...)
+	}
 	var keep []byte
 	var decisions []bool
 	for _, p := range s.pkts {
@@ -28,7 +35,7 @@ func HarnessC19Skip(api int) {
 	}
 	dmx := NewDemuxer(vCtx{}, newVReader(s.bytes()), DemuxerOptPacketSize(188), DemuxerOptPacketSkipper(skipper))
 	ref := NewDemuxer(vCtx{}, newVReader(keep), DemuxerOptPacketSize(188))
-	for k := 0; k < 12; k++ {
+	for k := 0; k < 14; k++ {
 		if api == 0 {
 			p, err := dmx.NextPacket()
 			q, err2 := ref.NextPacket()
